@@ -85,7 +85,11 @@ def at(fn, line=None):
 
 class Ctx:
     def __init__(self, facts, tree_hash, tier, facts_rel=None):
-        from normalise import normalise
+        from normalise import normalise, load_pin
+        import core
+
+        _pin = load_pin()
+        core.set_canon({k: set(v) for k, v in (_pin.get("binops") or {}).items()}, {k: set(v) for k, v in (_pin.get("vars") or {}).items()})
 
         # normalisation (identity on the pinned tree): renamed private functions / fields / variants are
         # re-bound to the pinned names, new private helpers are spliced into their callers
